@@ -71,9 +71,14 @@
           (i) [type_ok_with], recursion: for a composite field type the MERGED sub-selections of
               the group's field nodes satisfy (d)-(i) for every possible object type; for a leaf
               type nothing (5.3.3, leaf field selections, is not needed)
-                <- the same theorems one level down; [n] bounds this recursion over types:
-                   [doc_depth D + 1] levels suffice (own; today [n := default_fuel D] is evaluated
-                   per case, the bound itself is not yet a lemma).
+                <- the same theorems one level down; [n] bounds this recursion over types and is
+                   monotone ([C01_doc_ok_mono]: fine with n => fine with every m >= n), so the
+                   discharging lemma only has to exhibit SOME n.  [doc_depth D + 1] is NOT enough
+                   (the nesting continues through fragment spreads:
+                   [C01_level_bound_depth_plus_one_refuted]); without fragment cycles (5.5.2.2,
+                   C04_cycle_search_iff) the number of levels is at most the sum of the depths of
+                   the operation and the fragments, hence at most [default_fuel D], the value the
+                   check evaluates; with a cycle such as F on O { o { ...F } } no n works.
         Not needed from validation at all: 5.2.x beyond the root type, 5.3.2 (field merging: the
         executor merges whatever it is given), 5.4 / 5.6 for field arguments, 5.5.2.x, 5.8 beyond
         what (b) uses.
@@ -179,6 +184,30 @@ Theorem C01_collect_cache_transparent_refuted_before_fixd :
                 run fixed S D E fuel W = Done d [e] /\ run fixed_nomemo S D E fuel W = Done d [e].
 Proof. exact collect_cache_transparent_refuted_before_fixd. Qed.
 
+(** why: the memo key ([cache_key]: the type's name, then line and column of EVERY selection of
+    the list, as the code builds it) determines the object type and the list of positions — for
+    type names without zero byte, lines < 2^24 and columns < 2^32 — and inside one document with
+    distinct positions a list of positions determines the list of selection nodes. *)
+Theorem C01_cache_key_injective : forall ot ot' a b,
+  Forall (fun x => x <> 0%N) ot -> Forall (fun x => x <> 0%N) ot' ->
+  Forall (fun s => (line (sel_pos s) < 16777216)%N /\ (col (sel_pos s) < 4294967296)%N) a ->
+  Forall (fun s => (line (sel_pos s) < 16777216)%N /\ (col (sel_pos s) < 4294967296)%N) b ->
+  cache_key ot a = cache_key ot' b -> ot = ot' /\ map sel_pos a = map sel_pos b.
+Proof. exact (fun ot ot' a b => cache_key_inj ot ot' a b). Qed.
+
+(** ... and a key that keeps less is not transparent: with (type, first selection, number of
+    selections) ([coarse_key], mode [coarse_memo]) a fragment's field node that merges with
+    different sibling nodes at two spread sites makes two merged sub-selection lists collide
+    ({ p: o { ...F o { s } } q: o { ...F o { sn } } }  fragment F on O { o { __typename } }): the
+    response differs from the cache-free one, on a typed document with distinct positions. *)
+Theorem C01_collect_cache_transparent_refuted_coarse_key :
+  exists S D E fuel n W,
+    type_names_okb S = true /\ doc_positions_okb D = true /\ doc_ok S D E fuel n = true /\
+    run coarse_memo S D E fuel W <> run fixed_nomemo S D E fuel W /\
+    run fixed S D E fuel W = run fixed_nomemo S D E fuel W /\
+    exists ot l1 l2, l1 <> l2 /\ coarse_key ot l1 = coarse_key ot l2 /\ cache_key ot l1 <> cache_key ot l2.
+Proof. exact collect_cache_transparent_refuted_coarse_key. Qed.
+
 (** stage B: GetOperation.  The executor's loop over the definitions selects exactly the operation
     the specification determines (no name: the only operation; a name: the only operation of
     that name) ... *)
@@ -281,6 +310,18 @@ Theorem C01_exec_error_shape : forall S D E fuel n W d errs rt e,
                  (e_locs e = first_loc fields \/ (idxs = [] /\ e_locs e = map fn_pos fields)).
 Proof. exact exec_error_shape. Qed.
 
+(** the level bound [n] of [doc_ok] is monotone ... *)
+Theorem C01_doc_ok_mono : forall S D E fuel n m,
+  (n <= m)%nat -> doc_ok S D E fuel n = true -> doc_ok S D E fuel m = true.
+Proof. exact doc_ok_mono. Qed.
+
+(** ... and depth + 1 levels are not enough in general *)
+Theorem C01_level_bound_depth_plus_one_refuted :
+  exists S D E,
+    doc_ok S D E (default_fuel D) (doc_depth D + 1) = false /\
+    doc_ok S D E (default_fuel D) (default_fuel D) = true.
+Proof. exact level_bound_depth_plus_one_refuted. Qed.
+
 (** the fuel bound: with [default_fuel D] = (fragment definitions + 1) * (nesting depth + 1),
     CollectFields never runs out of fuel on a selection list no deeper than the document (the
     operation's selections, a fragment body, merged sub-selections of collected fields) — so
@@ -331,6 +372,8 @@ Proof. exact exec_data_finite_refuted_before_fix7. Qed.
 Print Assumptions C01_exec_total.
 Print Assumptions C01_exec_total_default_fuel.
 Print Assumptions C01_collect_cache_transparent_refuted_before_fixd.
+Print Assumptions C01_cache_key_injective.
+Print Assumptions C01_collect_cache_transparent_refuted_coarse_key.
 Print Assumptions C01_get_operation_refines_spec.
 Print Assumptions C01_run_request_selected.
 Print Assumptions C01_run_request_vars_refused.
@@ -347,6 +390,8 @@ Print Assumptions C01_collect_cache_transparent.
 Print Assumptions C01_exec_order.
 Print Assumptions C01_selection_set_order.
 Print Assumptions C01_exec_error_shape.
+Print Assumptions C01_doc_ok_mono.
+Print Assumptions C01_level_bound_depth_plus_one_refuted.
 Print Assumptions C01_collect_fuel_sufficient.
 Print Assumptions C01_spec_selection_set_wf.
 Print Assumptions C01_int_result_in_range.
